@@ -5,7 +5,7 @@
    FULL STATEMENT OF THE PROPERTY (REFUTED on the current tree, see zix_normal_refuted_A..D):
      forall s, peq (zix_normal s) (std_normal s) /\ is_normal_form (zix_normal s) = true.       *)
 From Coq Require Import ZArith List Bool.
-From Zix Require Import PathNormSpec PathNormModel PathNormProofsSpec PathNormProofsModel PathNormProofs.
+From Zix Require Import PathNormSpec PathNormModel PathNormProofsSpec PathNormProofsModel PathNormProofsDD PathNormProofsTail PathNormProofsPlain PathNormProofs.
 Import ListNotations.
 Local Open Scope Z_scope.
 
@@ -63,21 +63,27 @@ Qed.
 Print Assumptions zix_normal_refuted_D.
 
 (* ---- the positive part ---------------------------------------------------------------------
-   zix_normal_partial: for every C string with at most one leading separator in which no field
-   (text between separators) ends in ".." -- a sub-class of  plain s = ~A /\ ~B /\ ~C /\ ~D --
-   the model does not run out of fuel and returns EXACTLY the text of std_normal, hence the same
-   path, in normal form.  What is missing for the whole of `plain`: inputs that contain ".."
-   elements (passes 2 and 3 of the C function then rewrite the buffer); these are covered only
-   by the exhaustive/random correspondence (testing), see props/C11.json. *)
+   zix_normal_partial: for EVERY C string of  plain s = ~A /\ ~B /\ ~C /\ ~D  (the complement of the
+   four finding classes) whose length fits a size_t allocation (len + 2 < 2^64), the index-faithful
+   model of the four passes does not run out of fuel and returns EXACTLY the text of std_normal,
+   hence the same path, in normal form.  Together with zix_normal_refuted_A..D this is the
+   property's statement with the extra hypothesis `plain s`, which is precisely the decidable
+   predicate that excludes the known findings. *)
 
-Theorem zix_normal_partial : forall s, c_string s -> no_dotdot_tail s = true ->
+Theorem zix_normal_partial : forall s, c_string s -> zlen s + 2 < 2 ^ 64 -> plain s = true ->
   zix_normal_opt s = Some (std_normal s) /\
   peq (zix_normal s) (std_normal s) /\ is_normal_form (zix_normal s) = true.
 Proof.
-  intros s Hc H. pose proof (zix_normal_on_class s Hc H) as E. split; [exact E|].
+  intros s Hc HW H. pose proof (zix_normal_plain s Hc HW H) as E. split; [exact E|].
   unfold zix_normal. rewrite E. split; [split; reflexivity|apply std_normal_nf].
 Qed.
 Print Assumptions zix_normal_partial.
+
+(* the sub-class without any field ending in ".." needs no bound on the length *)
+Theorem zix_normal_partial_no_dotdot : forall s, c_string s -> no_dotdot_tail s = true ->
+  zix_normal_opt s = Some (std_normal s).
+Proof. exact zix_normal_on_class. Qed.
+Print Assumptions zix_normal_partial_no_dotdot.
 
 (* the hypotheses are satisfiable on non-trivial strings: "/./a//.b/./c./" and "x/." *)
 Example partial_example_1 :
@@ -86,6 +92,11 @@ Example partial_example_1 :
   = [SEP; 97; SEP; DOT; 98; SEP; 99; DOT; SEP].
 Proof. vm_compute. split; reflexivity. Qed.
 Example partial_example_2 : no_dotdot_tail [120; SEP; DOT] = true /\ zix_normal [120; SEP; DOT] = [120; SEP].
+Proof. vm_compute. split; reflexivity. Qed.
+(* "/../a/b/../../c/.." is plain, contains ".." under the root, after names, and at the end *)
+Example partial_example_3 :
+  plain [SEP; DOT; DOT; SEP; 97; SEP; 98; SEP; DOT; DOT; SEP; DOT; DOT; SEP; 99; SEP; DOT; DOT] = true /\
+  zix_normal [SEP; DOT; DOT; SEP; 97; SEP; 98; SEP; DOT; DOT; SEP; DOT; DOT; SEP; 99; SEP; DOT; DOT] = [SEP].
 Proof. vm_compute. split; reflexivity. Qed.
 
 (* the proved class lies inside `plain` (none of the four finding classes) *)
